@@ -213,6 +213,8 @@ impl ZoneStore {
         _source: PacketSource,
     ) -> Result<bool> {
         let pubkey = PublicKeyBytes::from_signed_packet(&signed_packet);
+        #[cfg(iroh_verif)]
+        iroh_base::verif::pause_async("dnssrv.insert.before_upsert").await;
         if self.store.upsert(signed_packet).await? {
             #[cfg(iroh_verif)]
             iroh_base::verif::pause_async("dnssrv.insert.after_upsert").await;
